@@ -1205,6 +1205,13 @@ def guard_influences(body, site, depth=3, _seen=None):
                         if d[3]['r']['a'][0]['i'] != 0:
                             c2, f2, b2 = guard_influences(body, d[0], depth - 1, _seen)
                             calls |= c2; fields |= f2; binops |= b2
+                elif len(ds) > 1:
+                    # `flag = a && b` compiles to `flag = false` on one edge and `flag = <b>` on the other: what decides which
+                    # definition is reached (the test of a) influences the flag as well
+                    for d in ds:
+                        if not (d[2] == 'assign' and d[3]['r']['k'] == 'use' and d[3]['r']['a'][0].get('i') == 0):
+                            c2, f2, b2 = guard_influences(body, d[0], depth - 1, _seen)
+                            calls |= c2; fields |= f2; binops |= b2
     return calls, fields, binops
 
 
